@@ -21,6 +21,10 @@ At(f, i) == IF i >= 1 /\ i <= Len(f) THEN f[i] ELSE 0                 \* 1-based
 WordAt(f, p) == WordOfBytes(<<At(f, p), At(f, p + 1), At(f, p + 2), At(f, p + 3)>>)   \* p: 1-based position of the low byte
 NWords(f) == WordAt(f, 1)
 Loaded(f) == [i \in 0..(NWords(f) - 1) |-> WordAt(f, 5 + 4 * i)]
+\* named deviation TbLoadsWholeFile: hextb's loader copies everything after the header - debug tables included - into memory from word 0
+\* (it trusts the file length, not the header); bytes the file does not contain are zero
+PayloadWords(f) == IF Len(f) > 4 THEN (Len(f) - 4 + 3) \div 4 ELSE 0
+LoadedWhole(f) == [i \in 0..(PayloadWords(f) - 1) |-> WordAt(f, 5 + 4 * i)]
 DebugStart(f) == 5 + 4 * NWords(f)
 \* a loader looks for debug tables iff the file, rounded up to whole words, is longer than header + image
 HasDebug(f) == ((Len(f) - 4 + 3) \div 4) * 4 > 4 * NWords(f)
